@@ -37,6 +37,7 @@ type ExtConn struct {
 	Frames       [][2]interface{} // (type, payload)
 	CloseFrameOK bool
 	WriteOK      func(data []byte) bool
+	WriteErr     error           // data writes fail with exactly this error
 	Hook         func(op string) // yield point (called on entry)
 	Log          func(ev string)
 	// plain variables touched by every underlying write / read: the race detector judges
@@ -139,6 +140,9 @@ func (c *ExtConn) WriteMessage(messageType int, data []byte) error {
 		c.log(fmt.Sprintf("f:2:%x", data))
 	}
 	c.WriteCanary++
+	if messageType != websocket.CloseMessage && c.WriteErr != nil {
+		return c.WriteErr
+	}
 	if !ok {
 		return errors.New("fake: write failed")
 	}
@@ -157,6 +161,9 @@ func (c *ExtConn) Close() error {
 	c.log("c")
 	return nil
 }
+
+func (c *ExtConn) Lock()   { c.mu.Lock() }
+func (c *ExtConn) Unlock() { c.mu.Unlock() }
 
 func (c *ExtConn) NumCloses() int {
 	c.mu.Lock()
@@ -227,6 +234,18 @@ func (c *WsConn) Close() error {
 	}
 	c.log(fmt.Sprintf("c:%d", c.ID))
 	return nil
+}
+
+// SelfClose: the connection closes without the client asking (the reader's default handler
+// closed it after a read error, or the peer performed the close handshake).
+func (c *WsConn) SelfClose() {
+	c.mu.Lock()
+	first := !c.closed
+	c.closed = true
+	c.mu.Unlock()
+	if first {
+		close(c.closedCh)
+	}
 }
 
 func (c *WsConn) Write(b []byte) (int, error) {
